@@ -14,6 +14,8 @@
 //   - nonabs: members whose key contains ':' without being an absolute IRI
 //     ("_:b", ":x") — json-gold's safe mode lets them pass and ToRDF drops them.
 //   - emptykey: the member "" under an absolute @vocab (defined; json-gold drops its value).
+//   - every case also reads the document from io.Closer readers (io.NopCloser, a
+//     temporary *os.File, a closer whose Close fails): implementation side only.
 //   - credential: W3CCredential.Merklize / ToCoreClaim on a KYCAgeCredential with
 //     and without an undefined member of credentialSubject (option plumbing).
 //
@@ -29,8 +31,11 @@ import (
 	"bytes"
 	"context"
 	"encoding/json"
+	"errors"
 	"fmt"
+	"io"
 	"math/big"
+	"os"
 	"path/filepath"
 	"reflect"
 	"sort"
@@ -295,6 +300,63 @@ func (d *drv) merklizeWith(doc []byte, loaderOpt string, l ld.DocumentLoader, sp
 	return r
 }
 
+// errCloser: a reader whose Close reports an error.
+type errCloser struct{ io.Reader }
+
+func (errCloser) Close() error { return errors.New("close failed") }
+
+// merklizeReader runs MerklizeJSONLD with the document coming from a reader that is
+// also an io.Closer: io.NopCloser, a temporary *os.File, or a closer whose Close fails.
+func (d *drv) merklizeReader(doc []byte, kind string, spec []string) runObs {
+	opts := []merklize.MerklizeOption{merklize.WithDocumentLoader(d.loader)}
+	for _, s := range spec {
+		switch s {
+		case "safe:true":
+			opts = append(opts, merklize.WithSafeMode(true))
+		case "safe:false":
+			opts = append(opts, merklize.WithSafeMode(false))
+		}
+	}
+	r := runObs{opts: opts, spec: spec, loaderOpt: "case", defaultNil: d.defaultNil}
+	var mz *merklize.Merklizer
+	r.out = mzrun.Guard(30*time.Second, func() error {
+		var in io.Reader
+		switch kind {
+		case "nopcloser":
+			in = io.NopCloser(bytes.NewReader(doc))
+		case "errcloser":
+			in = errCloser{bytes.NewReader(doc)}
+		default:
+			f, err := os.CreateTemp(d.cfg.OutDir, "c15-doc-*.json")
+			if err != nil {
+				return fmt.Errorf("harness: %w", err)
+			}
+			defer func() { f.Close(); os.Remove(f.Name()) }()
+			if _, err := f.Write(doc); err != nil {
+				return fmt.Errorf("harness: %w", err)
+			}
+			if _, err := f.Seek(0, io.SeekStart); err != nil {
+				return fmt.Errorf("harness: %w", err)
+			}
+			in = f
+		}
+		m, err := merklize.MerklizeJSONLD(context.Background(), in, opts...)
+		if err != nil {
+			return err
+		}
+		if m == nil {
+			return errors.New("nil merklizer with nil error")
+		}
+		mz = m
+		return nil
+	})
+	if r.out.Class == "ok" {
+		r.root = mz.Root().BigInt()
+		r.n = len(mzrun.MapEntries(mz))
+	}
+	return r
+}
+
 // scriptedLoader serves what the case loader serves until the failFrom-th call
 // (1-based, counted over all URLs), and reports a fetch failure from then on;
 // failFrom <= 0: never fails.  It records every call.
@@ -540,6 +602,34 @@ func (d *drv) evalCase(rep *common.Report, in CaseInput) *ccase {
 			rep.Fail("c15-loader-config-changes-mode", fmt.Sprintf("MerklizeJSONLD with default loader nil=%v, loader option %q, options %v gives %s, the same options with an explicit loader give %s: the safe-mode setting depends on the loader configuration", r.defaultNil, r.loaderOpt, r.spec, r.out.Class, want.out.Class), in)
 		}
 		c.runs = append(c.runs, r)
+	}
+	// --- the kind of reader the document comes from must not matter (implementation
+	// side only: the model has no notion of an input reader)
+	for _, kind := range []string{"nopcloser", "file", "errcloser"} {
+		r := d.merklizeReader(docB, kind, []string{"safe:true"})
+		rep.Count("reader:" + kind + ":" + r.out.Class)
+		if r.out.Class == "panic" || r.out.Class == "hang" {
+			rep.Fail("c15-"+r.out.Class, "MerklizeJSONLD reading from "+kind+": "+r.out.Msg, in)
+			continue
+		}
+		unsw := firstUnswallowed(in.Dropped)
+		switch {
+		case r.out.Class == "ok" && unsw != nil:
+			what := fmt.Sprintf("safe mode returned success for a document with the undefined member %s when the document is read from an io.Closer (%s)", pathString(unsw), kind)
+			if unsafe.out.Class == "ok" && r.root.Cmp(unsafe.root) == 0 {
+				what += "; the field is silently dropped (root = root of the document without it)"
+			}
+			rep.Fail("c15-closer-input-hides-undefined", what, map[string]any{"stream": in.Stream, "doc": in.Doc, "contexts": in.Contexts,
+				"dropped": in.Dropped, "non_absolute": in.NonAbsolute, "expected_entries": in.Expected, "injected": in.Injected,
+				"sites": in.Sites, "reader": kind})
+		case kind == "errcloser" && safe.out.Class == "ok":
+			// a Close error may surface; a success must be the regular one
+			if r.out.Class == "ok" && !sameObs(r, safe) {
+				rep.Fail("c15-reader-kind-changes-result", "reading from a closer whose Close fails: success with a different root", in)
+			}
+		case !sameObs(r, safe):
+			rep.Fail("c15-reader-kind-changes-result", fmt.Sprintf("safe mode reading from %s gives %s (%s), reading from a bytes.Reader gives %s", kind, r.out.Class, r.out.Msg, safe.out.Class), in)
+		}
 	}
 	// --- a loader that stops answering in the middle of the call
 	if !noRemote {
